@@ -20,7 +20,11 @@ theorem rxcs_tot (m : MacState) (mp : Nat) (cs : List (RxView × Int)) (h : MacW
     intro ⟨o, m1⟩ hk
     simp only at hk ⊢
     cases o with
-    | none => exact Tot.pure hk
+    | none =>
+      simp only
+      refine (ih m1 hk.1 hv.2).mono ?_
+      intro ⟨os, fin, m2⟩ hk2
+      exact hk.trans hk2
     | some o =>
       simp only
       refine Tot.bind (ih m1 hk.1 hv.2) ?_
